@@ -7,7 +7,8 @@
                  queue emptiness, stash size)
      msg_flags   RESET flag read when the message is built
      pre_send    RESYNC clears the stash before it sends
-     pop_queue   the queue item is taken once per iteration, at the first SYNC
+     pop_queue   the queue item is taken once per iteration: at the first SYNC (pinned order) or at the start
+                 of the iteration (repaired order, D9 fix) - see iter_init / iter_o, parameter pop_first
      payload     what is serialised
      post_send   bookkeeping after _tcp_send returned 0 / 1 / 2 and the clock was read again
    Run records are abstracted to their run ids (Z); a note is the three id lists completed/halted/updated.
@@ -178,12 +179,29 @@ Fixpoint send_all (now : Z) (qe : bool) (snap : note) (sends : list (Z * Z))
 
 Definition is_nil {A} (l : list A) : bool := match l with [] => true | _ => false end.
 
+(* The iteration exists in two step orders (the property does not fix which):
+     pop_first = false  the pinned commit: Queue.empty() is read at the decision, the item is taken at the
+                        first SYNC (pop_queue), so it stays queued when no SYNC goes out;
+     pop_first = true   the repaired order (fix for D9): the item is taken ONCE at the start of the iteration,
+                        inside the locked decision (cache_sync = get_nowait() if not empty; queue_empty =
+                        cache_sync is None), whether or not a SYNC goes out. *)
+Definition iter_init (pop_first : bool) (s : ostate) : istate :=
+  if pop_first
+  then match o_queue s with
+       | n :: q' => mkI (o_peers s) q' (Some n)
+       | [] => mkI (o_peers s) [] None
+       end
+  else mkI (o_peers s) (o_queue s) None.
+
 (* one iteration of the while-loop body *)
-Definition iter (c : tcfg) (now : Z) (snap : note) (sends : list (Z * Z)) (s : ostate) : ostate * list ev :=
+Definition iter_o (pop_first : bool) (c : tcfg) (now : Z) (snap : note) (sends : list (Z * Z)) (s : ostate)
+  : ostate * list ev :=
   let qe := is_nil (o_queue s) in
   let ol := decide_all c now qe (o_peers s) in
-  let (s', es) := send_all now qe snap sends (mkI (o_peers s) (o_queue s) None) ol in
+  let (s', es) := send_all now qe snap sends (iter_init pop_first s) ol in
   (mkO (i_peers s') (i_queue s'), es).
+
+Definition iter : tcfg -> Z -> note -> list (Z * Z) -> ostate -> ostate * list ev := iter_o false.
 
 (* a message from peer `from` handled by _tcp_incoming_handle_client (authenticated, well-formed):
    the address is refreshed, RESET clears the contact times *)
@@ -202,19 +220,25 @@ Inductive oact :=
 | AIter (now : Z) (snap : note) (sends : list (Z * Z))         (* one iteration of _tcp_outgoing *)
 | AIn (from : nat) (typ flags caddr : Z).                      (* one message handled by the incoming thread *)
 
-Definition step (c : tcfg) (s : ostate) (a : oact) : ostate * list ev :=
+Definition step_o (pop_first : bool) (c : tcfg) (s : ostate) (a : oact) : ostate * list ev :=
   match a with
   | AEnq n => (mkO (o_peers s) (o_queue s ++ [n]), [])
-  | AIter now snap sends => iter c now snap sends s
+  | AIter now snap sends => iter_o pop_first c now snap sends s
   | AIn from _ flags caddr => in_handle from flags caddr s
   end.
+Definition step : tcfg -> ostate -> oact -> ostate * list ev := step_o false.
 
 (* run a history; the log is accumulated newest first *)
-Fixpoint run (c : tcfg) (s : ostate) (acts : list oact) (rl : list ev) : ostate * list ev :=
+Fixpoint run_o (pop_first : bool) (c : tcfg) (s : ostate) (acts : list oact) (rl : list ev) : ostate * list ev :=
   match acts with
   | [] => (s, rl)
-  | a :: acts' => let (s', es) := step c s a in run c s' acts' (rev es ++ rl)
+  | a :: acts' => let (s', es) := step_o pop_first c s a in run_o pop_first c s' acts' (rev es ++ rl)
   end.
+Definition log_of_o (pop_first : bool) (c : tcfg) (s : ostate) (acts : list oact) : list ev :=
+  rev (snd (run_o pop_first c s acts [])).
+
+(* the pinned order under the names used since the first version *)
+Definition run : tcfg -> ostate -> list oact -> list ev -> ostate * list ev := run_o false.
 Definition log_of (c : tcfg) (s : ostate) (acts : list oact) : list ev := rev (snd (run c s acts [])).
 
 (* ---- observable encoding for the correspondence ---- *)
@@ -233,14 +257,17 @@ Definition enc_ev (e : ev) : list Z :=
 Definition enc_state (s : ostate) : list Z :=
   -2 :: n2z (length (o_queue s)) :: concat (map enc_peer (o_peers s)).
 
-Fixpoint obs (c : tcfg) (s : ostate) (acts : list oact) : list Z :=
+Fixpoint obs_o (pop_first : bool) (c : tcfg) (s : ostate) (acts : list oact) : list Z :=
   match acts with
   | [] => []
   | a :: acts' =>
-      let (s', es) := step c s a in
-      concat (map enc_ev es) ++ enc_state s' ++ obs c s' acts'
+      let (s', es) := step_o pop_first c s a in
+      concat (map enc_ev es) ++ enc_state s' ++ obs_o pop_first c s' acts'
   end.
+Definition obs : tcfg -> ostate -> list oact -> list Z := obs_o false.
 
-(* correspondence entry point: configuration, initial (peers, queue), history *)
+(* correspondence entry points: [step order,] configuration, initial (peers, queue), history *)
+Definition run_C15o (inp : bool * tcfg * (list peer * list note) * list oact) : list Z :=
+  let '(pf, c, (ps, q), acts) := inp in obs_o pf c (mkO ps q) acts.
 Definition run_C15 (inp : tcfg * (list peer * list note) * list oact) : list Z :=
   let '(c, (ps, q), acts) := inp in obs c (mkO ps q) acts.
